@@ -8,6 +8,7 @@ import (
 	"net"
 	"os"
 	"os/exec"
+	"runtime"
 	"strings"
 	"sync"
 	"sync/atomic"
@@ -1257,14 +1258,36 @@ func genC06(g *Gen, tier string, emit func(op string, args ...string)) {
 // exactly one of them may reach it while the others must be dropped by the dedup table.  Unlike the
 // parked scenarios this lets the goroutines race for the table (meaningful under -race as well).
 type dupConn struct {
-	in     chan []byte
-	closed chan struct{}
-	once   sync.Once
+	barrier *barrierAddr
+	in      chan []byte
+	closed  chan struct{}
+	once    sync.Once
+}
+
+// barrierAddr lines the datagram goroutines up: Serve builds the key of the in-flight table from
+// remoteAddr.String() right before it consults the table, so every goroutine of a round waits here for the
+// others (or 30 ms) and they all reach the test-and-insert together.
+type barrierAddr struct {
+	n       int32
+	arrived *int32
+}
+
+func (a barrierAddr) Network() string { return "udp" }
+func (a barrierAddr) String() string {
+	atomic.AddInt32(a.arrived, 1)
+	deadline := time.Now().Add(30 * time.Millisecond)
+	for atomic.LoadInt32(a.arrived) < a.n && time.Now().Before(deadline) {
+		runtime.Gosched()
+	}
+	return "peer0"
 }
 
 func (c *dupConn) ReadFrom(p []byte) (int, net.Addr, error) {
 	select {
 	case d := <-c.in:
+		if c.barrier != nil {
+			return copy(p, d), *c.barrier, nil
+		}
 		return copy(p, d), labAddr{"peer0"}, nil
 	case <-c.closed:
 		return 0, nil, &net.OpError{Op: "read", Net: "udp", Err: net.ErrClosed}
@@ -1284,6 +1307,8 @@ func runDups(n int, w *os.File) string {
 	var starts, dones int32
 	release := make(chan struct{})
 	conn := &dupConn{in: make(chan []byte), closed: make(chan struct{})}
+	var arrived int32
+	conn.barrier = &barrierAddr{n: int32(n), arrived: &arrived}
 	srv := &radius.PacketServer{SecretSource: radius.StaticSecretSource([]byte("s")), Handler: radius.HandlerFunc(func(w radius.ResponseWriter, r *radius.Request) {
 		atomic.AddInt32(&starts, 1)
 		<-release
